@@ -75,6 +75,7 @@ let fspoll_case (fx : bool) (line : string) : string =
                                       (string_of_z st) (sb_str prev) (sb_str curr))
          | EClosed h -> Buffer.add_string buf (Printf.sprintf "x%d" (int_of_nat h))
          | EStat p -> Buffer.add_string buf (Printf.sprintf "s%d" (int_of_nat p))
+         | EIter -> Buffer.add_char buf 'g'
          | EObs l ->
              Buffer.add_char buf 'o';
              List.iter (fun ((a, c), p) ->
@@ -86,8 +87,56 @@ let fspoll_case (fx : bool) (line : string) : string =
       Buffer.contents buf
   | _ -> failwith "bad fs_poll case"
 
+(* fs_event case: "ops ; beh0 | beh1 | ..." with S<h>,<cb>,<base>,<wd> and D followed by the events
+   e<wd>,<mask>,<name token or -> read in that iteration *)
+let rec parse_iops (toks : string list) : iop list =
+  match toks with
+  | [] -> []
+  | tok :: rest ->
+      let arg = String.sub tok 1 (String.length tok - 1) in
+      let parts = String.split_on_char ',' arg in
+      (match tok.[0], parts with
+       | 'I', _ -> IInit :: parse_iops rest
+       | 'S', [h; cb; base; wd] -> IStart (nat_ h, nat_ cb, nat_ base, z_of_string wd) :: parse_iops rest
+       | 'T', [h] -> IStop (nat_ h) :: parse_iops rest
+       | 'C', [h] -> IClose (nat_ h) :: parse_iops rest
+       | 'D', _ ->
+           let rec go acc = function
+             | t :: r when String.length t > 0 && t.[0] = 'e' ->
+                 (match String.split_on_char ',' (String.sub t 1 (String.length t - 1)) with
+                  | [wd; mask; nm] ->
+                      go (((z_of_string wd, z_of_string mask),
+                           (if nm = "-" then None else Some (nat_ nm))) :: acc) r
+                  | _ -> failwith ("bad event " ^ t))
+             | r -> (List.rev acc, r) in
+           let (evs, r) = go [] rest in
+           IDispatch evs :: parse_iops r
+       | _ -> failwith ("bad fs_event op " ^ tok))
+
+let fsevent_case (line : string) : string =
+  match String.split_on_char ';' line with
+  | [ops; behs] ->
+      let ops = parse_iops (split_on ' ' ops) in
+      let beha = Array.of_list (List.map (fun b -> parse_iops (split_on ' ' b))
+                                  (String.split_on_char '|' behs)) in
+      let beh k = let k = int_of_nat k in if k < Array.length beha then beha.(k) else [] in
+      let (_, evs) = irun iinit ops beh O in
+      let buf = Buffer.create 1024 in
+      List.iter (fun e ->
+        (match e with
+         | IRet c -> Buffer.add_string buf ("r" ^ string_of_z c)
+         | ICb (h, cb, nm, bits) ->
+             Buffer.add_string buf (Printf.sprintf "c%d,%d,%d,%s" (int_of_nat h) (int_of_nat cb)
+                                      (int_of_nat nm) (string_of_z bits))
+         | IRm wd -> Buffer.add_string buf ("m" ^ string_of_z wd)
+         | IClosed h -> Buffer.add_string buf (Printf.sprintf "x%d" (int_of_nat h)));
+        Buffer.add_char buf ' ') evs;
+      Buffer.contents buf
+  | _ -> failwith "bad fs_event case"
+
 let () =
   let f = match Sys.argv.(1) with
+    | "fsevent" -> fsevent_case
     | "fspoll" -> fspoll_case false
     | "fspoll-fixed" -> fspoll_case true
     | _ -> failwith "mode" in
